@@ -7,6 +7,9 @@ BUILT = {
  "C01": dict(tech="TLA+ Design model of the image metadata pass + loads (TLC exhaustive over geometries x rpc x selections), spec-generated cases replayed on 4 filesystems with bit-exact pixel comparison, recorded I/O traces validated by TLC",
              text="TLC decides the offset arithmetic (RangesExact, CellsExact, OrderKept) for every (n<=6,p<=2,prefix,bps,rpc<=8); every enumerated geometry plus seeded random geometries far outside the bound are synthesised, opened through open_alos2 and compared bit for bit; each vtrace execution is trace-validated against the Envelope.",
              note="trusts TLC, the frozen Layout.tla table (anchored on CEOS record sizes), NumPy/xarray/fsspec as libraries, the harness decode of raw words", ref="6 C01"),
+ "C02": dict(tech="TLA+ function of Python/NumPy one-axis index semantics enumerated exhaustively by TLC (with algebraic invariants); every enumerated point replayed as implementation tests on both axes against the spec, an in-memory twin and a reference lazy backend",
+             text="TLC evaluates PyIndex on every int / slice(start,stop,step) / small integer array / boolean mask for axis lengths 1..4 (1..5 thorough) and checks seven invariants; each point is applied through isel and [] on rows and columns of lazily opened images (both sample types, several rpc) and must be identical (shape, dims, coords, bits) to the spec's positions and to the in-memory twin; outer / vectorised / label selections are compared lazy-vs-twin.",
+             note="operations that xarray's own lazy indexing of a reference BASIC backend does not support (e.g. empty negative-step slices in this xarray version) are outside 'any operation xarray accepts' and counted as skipped; PyIndex is cross-checked against NumPy on every run", ref="6 C02"),
  "C05": dict(tech="TLA+ writer/reader framing state machine (TLC exhaustive over declared counts/lengths) + replay of every enumerated instance into the real reader",
              text="TLC checks CursorAligned/InadmissibleRejected/EndsAtTotal for attitude 1..136 points (incl. non-standard record lengths), channels 1..16, facility lengths^4, 0/1 map projection, 0..12 file pointers, 0..7 low-res images; every admissible instance is synthesised from the TLC-placed layout and every leaf behind the variable-length record is compared.",
              note="trusts TLC, the frozen Layout.tla; the leader cross product is covered one dimension at a time plus the full facility-length cross (additivity of framing)", ref="6 C05"),
